@@ -22,7 +22,7 @@ RULES = [
     Rule('C04.R2', 'note removal and the gliding/extended counters move together with the fields they count', 6),
     Rule('C04.R3', 'note instruments are the empty instrument or one of the 128 entries of a bank', 4),
     Rule('C04.R4', 'evacuation updates note and both chip channels, guarded by capacity and duplicate tests', 5),
-    Rule('C04.R5', 'inserts into the fixed-capacity lists cannot overflow', 3),
+    Rule('C04.R5', 'inserts into the fixed-capacity lists cannot overflow; a full user list (find_or_create_user answers end) makes the note drop the chip channel', 5),
     Rule('C04.R7', 'OPN2::noteOn reaches its key-on write for every tone: no return before it except under a guard that cannot hold', 2),
     Rule('C04.R6', 'the chip-channel table is rebuilt only after every sounding note has been dropped', 3),
 ]
@@ -183,6 +183,54 @@ def analyse(facts, tier):
     skip_self = any(f[0] == 'cmp' and f[1] == '!=' and 'from_channel' in fact_str(f) for f in gf)
     obls.append(Obl('C04.R4', ke.name, 'target differs from the source', pb[0][2]['loc'], 'discharged' if skip_self else 'finding', why='c != from_channel' if skip_self else 'a note may be evacuated onto its own channel'))
 
+    # ---- R5b: find_or_create_user() answers end() when the user list of the chip channel is full.  The caller holds (or is about
+    # to record) the note's reference to that chip channel: on every path on which the answer may be end(), the reference is dropped
+    # (phys_erase / phys_erase_at) before the function returns - otherwise the note refers to a channel that does not list it.
+    nfc = 0
+    for fn in facts.all_fns():
+        if not fn.name.startswith('OPNMIDIplay::') or fn.tree is None or '::OpnChannel::' in fn.name:
+            continue
+        for b, j, st in fn.cfg.stmts():
+            res = None
+            if st['s'].get('k') == 'DeclStmt':
+                for v in st['s']['decls']:
+                    if v.get('init') is not None and any(short(callee_name(y)) == 'find_or_create_user' for y in calls_in(v['init'])):
+                        res = v['id']
+            if res is None:
+                continue
+            nfc += 1
+            cfg = fn.cfg
+            def drops(bid, from_idx=0):
+                return any(short(callee_name(y)) in ('phys_erase_at', 'phys_erase') for s2 in cfg.blocks[bid]['stmts'][from_idx:] for y in calls_in(s2['s']))
+            bad_path = False
+            seen = set()
+            work = [(b, j + 1)]
+            while work:
+                bid, idx = work.pop()
+                if (bid, idx > 0) in seen:
+                    continue
+                seen.add((bid, idx > 0))
+                if drops(bid, idx):
+                    continue
+                if bid == cfg.exit:
+                    bad_path = True
+                    break
+                for k_, sx in enumerate(cfg.blocks[bid]['succ']):
+                    if sx is None:
+                        continue
+                    e = cfg.edge_info(bid, k_)
+                    if e and e['kind'] == 'branch':
+                        # the edge on which the answer is known not to be end(): the user is listed, nothing to drop
+                        fs = literals(e['cond'], e['pol'])
+                        if any(f[0] == 'truth' and not f[2] and short(callee_name(strip(f[1]))) == 'is_end' and strip(strip(f[1]).get('obj') or {}).get('id') == res for f in fs):
+                            continue
+                    work.append((sx, 0))
+            obls.append(Obl('C04.R5', fn.name, 'find_or_create_user answered end()', st['loc'], 'finding' if bad_path else 'discharged',
+                            why='a path on which the user list was full reaches the end of the function with the note still referring to the chip channel: the note is keyed on there '
+                                'but the channel does not list it (its note-off finds no user and the voice is never released by the bookkeeping)' if bad_path else
+                                'on every path that may carry end() the note drops the chip channel (phys_erase_at)'))
+    if nfc < 2:
+        raise build.AnalysisBroken('C04.R5: call sites of find_or_create_user not found (%d)' % nfc)
     # ---- R5
     for fn in facts.all_fns():
         if not fn.name.startswith('OPNMIDIplay::'):
